@@ -47,7 +47,7 @@ func makePermSignature(blobHash, apiToken, expiry, blobSignatureTTL string, perm
 }
 
 var (
-	mBlkRe      = regexp.MustCompile(`^[0-9a-f]{32}.*`)
+	mBlkRe      = regexp.MustCompile(`^[0-9a-f]{32}(\+.*)?$`)
 	mPermHintRe = regexp.MustCompile(`\+A[^+]*`)
 )
 
